@@ -555,9 +555,12 @@ def gen_pool(rng):
                 s.append(["mprocess", rng.randrange(len(e_mps))])
         s.append(["povm", rng.randrange(len(e_povms))])
         sched_opts.append(s)
+    gens = [1000 + rng.randrange(1000) for _ in range(rng.randint(1, 3))]
+    krng = pyrandom.Random(f"gen-kinds|{gens}")  # a stream of its own: the other choices of a seed stay what they were
     return {
         "vectors": [gen_vector(rng) for _ in range(nv)],
-        "gens": [1000 + rng.randrange(1000) for _ in range(rng.randint(1, 3))],
+        "gens": gens,
+        "gen_kinds": [krng.choice(["mt", "mt", "pcg", "pcg", "philox", "sfc"]) for _ in gens],
         "experiment": {"states": e_states, "povms": e_povms, "gates": e_gates, "mprocesses": e_mps, "schedules": sched_opts, "seed_data": rng.choice([None, None, 0, 5])},
         "tomo": {"states": rng.sample(["x0", "y0", "z0", "z1"], rng.randint(2, 4)), "povms": rng.sample(POVM_NAMES, rng.randint(1, 3)), "para": rng.random() < 0.5,
                  "seed_data": rng.choice([None, None, 0, 7, 777])},
@@ -833,7 +836,7 @@ def gen_concurrent(rng, pool, entries=None):
 
 
 def gen_malformed(rng, pool):
-    kind = rng.choice(["non_increasing", "too_long", "too_long_middle", "too_long_first", "equal_sizes", "out_of_range", "out_of_range_late", "nan_prob", "nan_prob_exp", "inf_prob", "negative_measurement_num", "neg_prob", "bad_sum", "len_mismatch", "exp_neg_n", "exp_nonint_n"])
+    kind = rng.choice(["non_increasing", "too_long", "too_long_middle", "too_long_first", "equal_sizes", "out_of_range", "out_of_range_late", "nan_prob", "nan_prob_exp", "inf_prob", "negative_measurement_num", "neg_prob", "bad_sum", "len_mismatch", "exp_neg_n", "exp_nonint_n", "negative_outcome", "negative_outcome_late"])
     return {"op": "malformed", "kind": kind, "salt": rng.randrange(1000)}
 
 
@@ -858,7 +861,10 @@ def _np_state_digest(s=None):
 
 def _gen_digest(g):
     st = g.bit_generator.state
-    return digest([np.asarray(st["state"]["key"]), int(st["state"]["pos"])])
+    if "pos" in st.get("state", {}):  # MT19937
+        return digest([np.asarray(st["state"]["key"]), int(st["state"]["pos"])])
+    # any other bit generator (PCG64, Philox, SFC64): canonical form of its state dictionary
+    return digest(repr(sorted((k, (v.tolist() if hasattr(v, "tolist") else ({kk: (vv.tolist() if hasattr(vv, "tolist") else vv) for kk, vv in sorted(v.items())} if isinstance(v, dict) else v))) for k, v in st.items())))
 
 
 def _py_digest():
@@ -1473,6 +1479,10 @@ class Run:
                 return dg.calc_empi_dist_sequence(2, data[:19] + [5], [10, 20])
             if kind == "out_of_range":
                 return dg.calc_empi_dist_sequence(2, data[:7] + [2] + data[8:], [10])
+            if kind == "negative_outcome":
+                return dg.calc_empi_dist_sequence(2 + st["salt"] % 2, data[:3] + [-1 - st["salt"] % 2] + data[4:], [10, 20])
+            if kind == "negative_outcome_late":
+                return dg.calc_empi_dist_sequence(3, data[:15] + [-1] + data[16:], [10, 20])
             if kind == "negative_measurement_num":
                 return dg.calc_empi_dist_sequence(-1, data, [10])
             if kind == "nan_prob":
@@ -1543,7 +1553,10 @@ class Run:
         self.world = World(self.pool)
         sd = self.pool["tomo"].get("seed_data")
         self.obj_seed = {"qst": sd, "povmt": sd, "qpt": sd, "qmpt": sd, "exp": self.pool["experiment"].get("seed_data")}
-        self.gens = [np.random.Generator(np.random.MT19937(s)) for s in self.pool["gens"]]
+        # bit generators: MT19937 (what quara builds from integer seeds) and, for some pool generators, the ones numpy hands
+        # out today (default_rng is PCG64) - a caller may pass any Generator
+        kinds = self.pool.get("gen_kinds") or ["mt"] * len(self.pool["gens"])
+        self.gens = [np.random.Generator({"mt": np.random.MT19937, "pcg": np.random.PCG64, "philox": np.random.Philox, "sfc": np.random.SFC64}[k](s)) for s, k in zip(self.pool["gens"], kinds)]
         self.shadows = [copy.deepcopy(g) for g in self.gens]
         # legacy generator objects (numpy RandomState) handed over explicitly: they work with every entry point today
         self.rstates = [np.random.RandomState(5000 + s) for s in self.pool["gens"]]
